@@ -283,9 +283,18 @@ def grid_suite(chk, w, rule, maxlen, ns=None, fixed=True, ctors=True, accessors=
             "std::shared_ptr<"), "shared_ptr"),
     }
 
+    sp = [d for d in w.I.methods.get(w.I.find_record(GRID)["id"], ()) if d.get("ctor") and len(d["params"]) == 2 and
+          "vt::InIt<" in d["params"][0]["type"]]
+    if sp:
+        ctor_tab["single-pass iterators"] = sp[0]
+
     def build(kind, seq):
         d = ctor_tab[kind]
         v = Vec(list(seq))
+        if kind == "single-pass iterators":
+            from .interp import SinglePass
+            args = [SinglePass(dict(items=v.items, pos=0)), SinglePass(None)]
+            return w.run(lambda: w.I.construct(d, args), "Grid(%s)" % kind)
         if kind == "vector":
             args = [box(v)]
         elif kind == "iterators":
